@@ -113,6 +113,12 @@ func protectedPath(p []any) bool {
 		switch k {
 		case "property", "engine", "seed":
 			return true
+		case "world":
+			if len(p) > 1 {
+				if k2, ok := p[1].(string); ok && k2 == "clock" {
+					return true
+				}
+			}
 		}
 	}
 	return false
@@ -125,7 +131,7 @@ func protectedString(p []any) bool {
 	}
 	if k, ok := p[len(p)-1].(string); ok {
 		switch k {
-		case "op", "kind", "entry", "k", "wk", "mode":
+		case "op", "kind", "entry", "k", "wk", "mode", "tok", "msg":
 			return true
 		}
 	}
